@@ -173,7 +173,7 @@ impl Prop for C16 {
         vec!["RefAttr and the generator's namespace / void truth are validated against html5ever (UTF-8) by `vcheck selftest` and by C03's domain B".into()]
     }
     fn run_shard(&self, ctx: &mut Ctx<'_>) {
-        let n = ctx.budget(120_000, 3_000_000);
+        let n = ctx.budget(120_000, 30_000_000);
         let encs = gen::ascii_compatible_encodings();
         for i in 0..n {
             if i % 32 == 0 && ctx.should_stop() {
